@@ -78,6 +78,9 @@ class Gen:
         self.defined_global = set()
         self.defined_dyn = set()
         self.base = base if base is not None else rng.choice([0, 0, 0x1000, 0x7F0000001000])
+        # global and local labels live in one table keyed by (name, generation): a third of the programs use the SAME identifiers for both
+        # (decided from the PRNG state without drawing from it, so the rest of the program is what it was)
+        self.gbase = 0 if (rng.s >> 7) % 3 == 0 else 8
 
     # ---- helpers
     def code(self, n_units=None):
@@ -166,14 +169,14 @@ class Gen:
                 self.defined_local.add(name)
                 self.pending_fwd.pop(name, None)
         elif c < 7:
-            g = 8 + r.below(self.names)
+            g = self.gbase + r.below(self.names)
             if g not in self.defined_global:
                 self.lines.append(f"gl {g}")
                 self.defined_global.add(g)
             else:
                 self.ref_line("rg", g, self.pick_shape())
         elif c < 8:
-            g = 8 + r.below(self.names)
+            g = self.gbase + r.below(self.names)
             self.ref_line("rg", g, self.pick_shape())
             self.need_global = getattr(self, "need_global", set()) | {g}
         elif c < 9:
@@ -232,7 +235,7 @@ class Gen:
         elif k == "bwd-undefined":
             self.ref_line("rb", 6 + r.below(2), self.pick_shape())
         elif k == "dup-global":
-            g = 8 + r.below(self.names)
+            g = self.gbase + r.below(self.names)
             if g not in self.defined_global:
                 self.lines.append(f"gl {g}")
                 self.defined_global.add(g)
